@@ -194,6 +194,15 @@ func c05Random(c *caseCtx) {
 	c05Check(c, g, decide(g.body(), true))
 }
 
+// large instances: implementations may change strategy (worker goroutines, batching) above a size threshold
+func c05Large(c *caseCtx) {
+	n := 64 + c.rng.Intn(30)
+	o := genOpts{method: "electreIII", minAlt: n, maxAlt: n, minCrit: 2, maxCrit: 4, allCons: 1, profile: []string{profTies, profDyadic, profReals}[c.rng.Intn(3)]}
+	g := genRequest(c.rng, o)
+	c05Check(c, g, decide(g.body(), true))
+	c.count("large_instances", 1)
+}
+
 func c05AfterBiases(c *caseCtx) {
 	g := c05Gen(c, 1+c.idx%2)
 	c05Check(c, g, decide(g.body(), true))
@@ -219,8 +228,15 @@ func signedVals(g *genReq, id string) []float64 {
 	return nil
 }
 
-func c06Case(c *caseCtx) {
-	g := c05Gen(c, 0)
+func c06Case(c *caseCtx) { c06Run(c, c05Gen(c, 0)) }
+
+// veto-heavy problems with a dominated copy: several discordant criteria on the same pair
+func c06Veto(c *caseCtx) {
+	o := genOpts{method: "electreIII", minAlt: 3, maxAlt: 6, minCrit: 3, maxCrit: 5, vetoHeavy: true, allCons: 1, profile: []string{profDyadic, profReals}[c.rng.Intn(2)], negValues: c.rng.Intn(4) == 0}
+	c06Run(c, genRequest(c.rng, o))
+}
+
+func c06Run(c *caseCtx, g *genReq) {
 	alts := g.M["knownAlternatives"].([]interface{})
 	// plant structure: a dominated copy (worse or equal everywhere) and sometimes an identical copy
 	if len(alts) >= 2 && c.rng.Intn(2) == 0 {
@@ -367,6 +383,7 @@ func init() {
 		assumptions: []string{electreAssume},
 		streams: []*stream{
 			{name: "random", n: tierN(50000, 1600000), unit: 5000, run: c05Random, floors: map[string]int64{"compared_with_reference": 30000, "with_exaequo": 3000}},
+			{name: "large", n: tierN(32, 400), unit: 2, run: c05Large, floors: map[string]int64{"large_instances": 32}, note: "64..93 alternatives, all considered"},
 			{name: "afterBiases", n: tierN(10000, 400000), unit: 5000, run: c05AfterBiases, floors: map[string]int64{"compared_with_reference": 30000}},
 		},
 	})
@@ -378,6 +395,8 @@ func init() {
 			"distinct (#alternatives, #criteria, index maps).",
 		assumptions: []string{"scaling by a power of two is exact in binary floating point, so no tolerance is needed"},
 		streams: []*stream{
+			{name: "vetoDominance", n: tierN(120000, 1500000), unit: 5000, run: c06Veto, floors: map[string]int64{"dominance_pairs": 10000},
+				note: "every criterion has q, p and v; a dominated copy is planted in half of the instances"},
 			{name: "relations", n: tierN(20000, 600000), unit: 2500, run: c06Case,
 				floors: map[string]int64{"dominance_pairs": 10000, "identical_pairs": 500, "permutations": 30000, "scalings": 15000}},
 		},
